@@ -5,6 +5,7 @@ package main
 
 import (
 	"fmt"
+	"os"
 	"go/constant"
 	"go/token"
 	"go/types"
@@ -35,7 +36,7 @@ type PC struct {
 // pcHas: c is literally one of the (most recent) path facts.
 func pcHas(p *PC, c *Term) bool {
 	n := 0
-	for x := p; x != nil && n < 400; x = x.parent {
+	for x := p; x != nil && n < 20000; x = x.parent {
 		if x.fact == c {
 			return true
 		}
@@ -49,6 +50,61 @@ func pcHas(p *PC, c *Term) bool {
 		n++
 	}
 	return false
+}
+
+// pcBranchDelta: conjunction of the branch decisions between p and its ancestor anc.
+func pcBranchDelta(p, anc *PC) *Term {
+	var fs []*Term
+	for x := p; x != nil && x != anc; x = x.parent {
+		if anc != nil && x.depth <= anc.depth {
+			break
+		}
+		if x.branch {
+			fs = append(fs, x.fact)
+		}
+	}
+	return And(fs...)
+}
+
+// pcImplies: c (or each conjunct of c) is literally among the path facts.
+func pcImplies(p *PC, c *Term) bool {
+	if c == True {
+		return true
+	}
+	if c.op == "and" {
+		for _, a := range c.args {
+			if !pcHas(p, a) {
+				return false
+			}
+		}
+		return true
+	}
+	return pcHas(p, c)
+}
+
+// underPC resolves ite nodes whose condition is decided by the path facts.
+func underPC(p *PC, t *Term) *Term {
+	return underPCd(p, t, 0)
+}
+
+func underPCd(p *PC, t *Term, depth int) *Term {
+	for t.op == "ite" {
+		if pcImplies(p, t.args[0]) {
+			t = t.args[1]
+		} else if pcImplies(p, Not(t.args[0])) {
+			t = t.args[2]
+		} else {
+			break
+		}
+	}
+	if t.op == "ite" && depth < 6 {
+		a := underPCd(p, t.args[1], depth+1)
+		b := underPCd(p, t.args[2], depth+1)
+		if a != t.args[1] || b != t.args[2] {
+			return Ite(t.args[0], a, b)
+		}
+	}
+	return t
 }
 
 // pcBranchFree: no branch decision lies between p and its ancestor anc.
@@ -243,6 +299,9 @@ type Engine struct {
 	strLitIDs map[string]uint64
 	unrolls map[string]*ssa.Function
 	topPkg string
+	strProv map[uint64]strProv
+	initFacts *initFacts
+	frames map[string]*ssa.Function
 	unfoldCache map[string]*Term
 	loopEval *loopEvalCtx
 	reveal bool
@@ -260,6 +319,11 @@ type Engine struct {
 	unfolding map[*ssa.Function]int
 }
 
+type strProv struct {
+	mem       int
+	r, o, n   *Term
+}
+
 type ifaceVal struct {
 	typ types.Type
 	val Value
@@ -270,7 +334,7 @@ func NewEngine(prog *ssa.Program) *Engine {
 		contracts: map[*ssa.Function]*ssa.Function{}, invs: map[string]*ssa.Function{}, decs: map[string]*ssa.Function{},
 		assumedExterns: map[string]bool{}, inlined: map[string]bool{}, usedContracts: map[string]bool{}, fieldIDs: map[string]uint64{},
 		globalsRO: map[*ssa.Global][]*Term{}, unfoldFuel: 1, specUF: map[string]bool{}, axiomSeen: map[string]bool{},
-		strLitIDs: map[string]uint64{}, unfoldCache: map[string]*Term{}, usedLemmas: map[string]bool{}, oblNames: map[string]bool{}, oblCounts: map[string]int{}, unfolding: map[*ssa.Function]int{}, unrolls: map[string]*ssa.Function{}, typeTags: map[string]uint64{}, ifaceVals: map[int]ifaceVal{}, maxDepth: 12, quantVars: map[string]*quantInfo{}}
+		strLitIDs: map[string]uint64{}, strProv: map[uint64]strProv{}, unfoldCache: map[string]*Term{}, usedLemmas: map[string]bool{}, oblNames: map[string]bool{}, oblCounts: map[string]int{}, unfolding: map[*ssa.Function]int{}, unrolls: map[string]*ssa.Function{}, typeTags: map[string]uint64{}, ifaceVals: map[int]ifaceVal{}, maxDepth: 12, quantVars: map[string]*quantInfo{}}
 }
 
 func (e *Engine) warn(format string, a ...interface{}) {
@@ -300,6 +364,8 @@ func globalMemName(g *ssa.Global, leaf Leaf) string {
 }
 
 var byteMemName = "elem:uint8/"
+var debugChain = os.Getenv("GOVC_DEBUG_CHAIN") != ""
+var debugChainDone bool
 
 // fieldLens: length of the array behind each embedded-array region class.
 var fieldLens = map[uint64]int64{}
@@ -320,6 +386,58 @@ var objKS = []Sort{RefSort}
 // values coming from pre-existing memory.
 func (e *Engine) memRead(st *State, name string, ksort []Sort, l Leaf, keys []*Term) *Term {
 	m := e.mem(st, name, ksort, l.sort)
+	if debugChain && len(keys) == 2 && keys[0].op == "var" && strings.HasPrefix(keys[0].name, "wire.r") && !debugChainDone {
+		debugChainDone = true
+		n := 0
+		for x := m; x != nil; x = x.prev {
+			desc := ""
+			switch x.kind {
+			case MWrite:
+				desc = "write " + x.keys[0].String()
+			case MCopy:
+				desc = "copy " + x.region.String()
+			case MFill:
+				desc = "fill " + x.region.String()
+			case MHavoc:
+				desc = "havoc " + x.region.String()
+			case MMerge:
+				desc = "merge"
+			case MHavocFresh:
+				desc = "havocfresh"
+			case MBase:
+				desc = "base " + x.uf
+			}
+			if len(desc) > 90 {
+				desc = desc[:90]
+			}
+			fmt.Println("CHAIN", n, desc)
+			n++
+		}
+	}
+	// keys that are conditional values (ite) are resolved against the path facts first
+	for i, k := range keys {
+		if k.op == "ite" {
+			if debugChain && k.args[2].op == "ite" {
+				c2 := k.args[2].args[0]
+				fmt.Println("UNDERPC inner cond", c2.String(), "has", pcHas(st.pc, c2), "depth", st.pc.depth)
+				n := 0
+				for x := st.pc; x != nil && n < 12; x = x.parent {
+					s := x.fact.String()
+					if len(s) > 100 {
+						s = s[:100]
+					}
+					fmt.Println("   PC", x.branch, s)
+					n++
+				}
+				debugChain = false
+			}
+			if nk := underPC(st.pc, k); nk != k {
+				nkeys := append([]*Term(nil), keys...)
+				nkeys[i] = nk
+				keys = nkeys
+			}
+		}
+	}
 	if len(keys) == 2 && l.sort == 8 {
 		if v, ok := e.litRead(keys); ok {
 			return v
@@ -698,6 +816,9 @@ func (e *Engine) assumeNotFuture(st *State, ts []*Term, t types.Type) {
 		if ts[i].op == "uf" && strings.HasPrefix(ts[i].name, "M0.") {
 			lim = callAllocBase
 		}
+		if ts[i].op == "var" {
+			regionNotAfter[ts[i].id] = lim
+		}
 		st.assume(BVUle(ts[i], BVConstU(0xF000000000000000+lim, RegionSort)))
 	}
 }
@@ -955,7 +1076,13 @@ func (e *Engine) equal(fr *Frame, st *State, x, y Value, tx, ty types.Type) *Ter
 		}
 		unsup("slice comparison")
 	case *types.Interface:
-		// y may be a concrete nil const of interface type
+		// an interface is nil iff its type tag is zero
+		if isZeroTerms(y.T) {
+			return Eq(x.T[0], BVConst(0, RefSort))
+		}
+		if isZeroTerms(x.T) {
+			return Eq(y.T[0], BVConst(0, RefSort))
+		}
 		return And(Eq(x.T[0], y.T[0]), Eq(x.T[1], y.T[1]))
 	case *types.Struct, *types.Array:
 		return e.equalLeaves(st, x.T, y.T, tx)
@@ -1100,6 +1227,8 @@ func (e *Engine) convert(fr *Frame, st *State, v Value, from, to types.Type, ins
 				m := e.mem(st, byteMemName, elemKS, 8)
 				st.mems[byteMemName] = m.Copy(r, BVConst(0, IntSort), v.T[2], m, v.T[0], v.T[1])
 				e.bumpAllocs(st)
+				// provenance: the string's content is that of the source bytes at this memory state
+				e.strProv[r.val.Uint64()] = strProv{effectiveMem(m, v.T[0]).id, v.T[0], v.T[1], v.T[2]}
 				reg := Ite(Eq(v.T[2], BVConst(0, IntSort)), BVConst(0, RegionSort), r)
 				return Value{T: []*Term{reg, BVConst(0, IntSort), v.T[2]}}
 			}
@@ -1338,8 +1467,15 @@ func mergeStates(sts []*State) (*State, []*Term) {
 			}
 		}
 		for k, ag := range a.ghost {
-			if bg, ok := n.ghost[k]; ok {
-				n.ghost[k] = Ite(c, ag, bg)
+			bg, ok := n.ghost[k]
+			if !ok {
+				bg = Var("ghost0."+k, ag.sort)
+			}
+			n.ghost[k] = Ite(c, ag, bg)
+		}
+		for k, bg := range n.ghost {
+			if _, ok := a.ghost[k]; !ok {
+				n.ghost[k] = Ite(c, Var("ghost0."+k, bg.sort), bg)
 			}
 		}
 		if len(a.defers) > len(n.defers) {
@@ -1359,7 +1495,7 @@ func (e *Engine) execFunc(fr *Frame, args []Value, st *State) []retPoint {
 		unsup("function %s has no body", fn)
 	}
 	for _, f := range e.stack {
-		if f == fn {
+		if f == fn && !strings.HasPrefix(fn.Name(), "verif_contract_") && !strings.HasPrefix(fn.Name(), "verif_extern_") {
 			unsup("recursive inlining of %s", fn)
 		}
 	}
@@ -1627,6 +1763,11 @@ func (e *Engine) edge(fr *Frame, rc *regionCtx, from, to *ssa.BasicBlock, s *Sta
 		}
 		e.backEdge(fr, li, s, from)
 		return
+	}
+	for _, li := range fr.loops {
+		if li.blocks[from] && !li.blocks[to] {
+			e.loopFrameCheck(fr, li, s)
+		}
 	}
 	rc.route(edgeKey{from.Index, to.Index}, []*State{s}, fr)
 }
